@@ -17,9 +17,9 @@ STUBS = ["pysam.AlignmentFile.pileup(**kwargs) -> contract stub: honours exactly
          "pysam.FastaFile.fetch -> the reference string; numba.vectorize / guvectorize -> numpy.vectorize of the same Python kernels"]
 ASSUMES = ["depth obligation: reads are symbolic (flags, MAPQ, base); the expected depth is a z3 term over all read variables and the four filter options",
            "threshold obligations: write_vcf_block is numpy/pandas string code (C boundary): depths and thresholds are solver-enumerated over a finite grid and the emitted lines compared with an independent oracle"]
-BOUNDS = {"quick": "depths: 2 reads x 1 position x 1 sample, all flag/MAPQ/base combinations, 6 option settings (each keep flag toggled alone at least once); thresholds: 1 site x 2 samples x counts in {0,1,3} for A,C,G, 8 threshold settings",
+BOUNDS = {"quick": "depths: 2 reads x 1 position x 1 sample, all flag/MAPQ/base combinations, 6 option settings (each keep flag toggled alone at least once); thresholds: 1 site x 2 samples x counts in {0,1,3} for A,C,G, 8 threshold settings, plus counts in {0,10,100} and {9,99,1000} for 2 settings (rendering width); FORMAT AD, INFO AD and ADMF text compared",
           "thorough": "depths: 3 reads; thresholds: 32 threshold settings, counts in {0,1,2,4}"}
-OUTSIDE = "htslib's pileup engine (overlap detection, base-quality and orphan handling are only modelled as documented defaults); text rendering of AD/ADMF numbers"
+OUTSIDE = "htslib's pileup engine (overlap detection, base-quality and orphan handling are only modelled as documented defaults); depths above 1000"
 TASKS_PER_CHILD = 2
 BAM_FUNMAP, BAM_FSECONDARY, BAM_FQCFAIL, BAM_FDUP, BAM_FSUPPLEMENTARY = 4, 256, 512, 1024, 2048
 PYSAM_PILEUP_KW = {"truncate", "max_depth", "stepper", "fastafile", "ignore_overlaps", "flag_filter", "flag_require", "ignore_orphans", "min_base_quality",
@@ -36,6 +36,10 @@ def configs(tier):
         grid = grid[::4]
     for th in grid:
         out.append(dict(group="thresholds", th=th, counts=[0, 1, 3] if tier == "quick" else [0, 1, 2, 4]))
+    # depths whose decimal rendering changes width (9 / 10 / 100 / 1000): the AD text must still be the counts
+    for th in (grid[0], grid[-1]):
+        out.append(dict(group="thresholds", th=th, counts=[0, 10, 100]))
+        out.append(dict(group="thresholds", th=th, counts=[9, 99, 1000]))
     return out
 
 
@@ -281,6 +285,15 @@ def _compare_block(depth, text, th):
             wantad = ",".join(str(int(depth[s, a])) for a in order)
             if ad != wantad:
                 problems.append(("sample-ad", "sample %d AD %s expected %s" % (s, ad, wantad)))
+        iv = dict(item.partition("=")[::2] for item in info.split(";"))
+        wantpop = ",".join(str(int(depth[:, a].sum())) for a in order)
+        if iv.get("AD") != wantpop:
+            problems.append(("info-ad", "INFO AD=%s expected the summed sample depths %s" % (iv.get("AD"), wantpop)))
+        if "ADMF" in iv:
+            got = [float(x) for x in iv["ADMF"].split(",")]
+            wantf = [float(want["mean"][a]) for a in order]
+            if len(got) != len(wantf) or any(abs(g_ - w_) > 5.1e-4 for g_, w_ in zip(got, wantf)):
+                problems.append(("info-admf", "INFO ADMF=%s expected mean sample frequencies %s" % (iv["ADMF"], [round(w_, 4) for w_ in wantf])))
     return problems
 
 
